@@ -178,6 +178,11 @@ pub fn run_c12(ctx: &mut Ctx) {
     }
     let nr = if ctx.thorough { 6000 } else { 600 };
     let tm = if ctx.thorough { 30 } else { 12 };
+    // delta_min_iter of models with finitely many (here: no) steps ends instead of spinning
+    for m in [json!({"k": "never"}), json!({"k": "wrap", "w": "rc", "of": {"k": "never"}}),
+              json!({"k": "sum", "a": {"k": "never"}, "b": {"k": "never"}})] {
+        ctx.call("dmin_iter", json!({"m": m, "H": 10, "N": 40, "tags": gen::tags(&m)}), dmin_iter_call);
+    }
     for i in 0..nr {
         // random longer traces
         let n = ctx.rng.gen_range(3..=14);
